@@ -1555,6 +1555,15 @@ class BaseSpaceImpl(*_base_space_impl_base):
         self.clear_refs_referrers()
         super().on_delete()
 
+    def clear_uncached_cells_callers(self, recursive=False):
+        # Uncached cells hold no values. Clear values calculated through them
+        for cells in self.cells.values():
+            if not cells.is_cached:
+                self.model.clear_obj(cells)
+        if recursive:
+            for space in self.named_spaces.values():
+                space.clear_uncached_cells_callers(recursive)
+
     def clear_refs_referrers(self, recursive=False):
         # Clear values that read references of this space as its attributes
         for ref in self.own_refs.values():
@@ -1965,6 +1974,7 @@ class UserSpaceImpl(*_user_space_impl_base):
     def on_rename(self, name):
         self.model.clear_obj(self)
         self.clear_all_cells(clear_input=True, recursive=True, del_items=True)
+        self.clear_uncached_cells_callers(recursive=True)
         self.clear_refs_referrers(recursive=True)
         old_name = self.name
         self.name = name
